@@ -64,6 +64,17 @@ def tapes(nbytes=600):
     return st.binary(min_size=nbytes, max_size=nbytes)
 
 
+TAPE_REGISTRY = {}      # id(strategy) -> (gen, tape length), for the fuzz stage
+
+
+def mapped(nbytes, gen):
+    """tapes(nbytes).map(gen), remembered so that other engines (atheris) can
+    drive the same generator with their own bytes"""
+    s = tapes(nbytes).map(gen)
+    TAPE_REGISTRY[id(s)] = (gen, nbytes, s)
+    return s
+
+
 # ---------------------------------------------------------------------------
 # ids and elements
 
